@@ -409,6 +409,7 @@ def write_evidence(ctx, cfg, violations):
             'broken_obligations': ctx.broken,
             'typed_layout_set': getattr(ctx, 'fracs_mode', 'quick'),
             'exhaustive': False,
+            'exhaustive_parts': cfg.get('exhaustive_parts', []),
         },
         'assumptions': cfg.get('assumptions', []) + ctx.notes[:20],
         'wall_s': round(time.time() - ctx.t0, 2),
